@@ -33,14 +33,15 @@ class C20(Prop):
         # translator ties: the regenerated guards / statements equal what the model does
         "NV.C20.tie_load_guard", "NV.C20.tie_load_no_current", "NV.C20.tie_load_test_first",
         "NV.C20.tie_clone_entry", "NV.C20.tie_clone_retest", "NV.C20.tie_clone_order",
-        "NV.C20.tie_export_error", "NV.C20.tie_export_target", "NV.C20.tie_export_assign",
-        "NV.C20.tie_seteuid_shape", "NV.C20.tie_seteuid_verdict", "NV.C20.tie_seteuid_null_verdict",
-        "NV.C20.tie_giveuid_shape",
+        "NV.C20.tie_export_error", "NV.C20.tie_export_target", "NV.C20.tie_seteuid_verdict", "NV.C20.tie_seteuid_null_verdict",
         # round 5: inventory of every uid/euid write in the driver; interleaved statement order of the anchor functions
         "NV.C20.tie_uid_writes_governed", "NV.C20.tie_uid_write_inventory", "NV.C20.tie_uid_rules_all_used", "NV.C20.tie_uid_records_never_renamed",
-        "NV.C20.tie_seteuid_order", "NV.C20.tie_export_order", "NV.C20.tie_set_master_shape", "NV.C20.tie_reload_shape",
-        "NV.C20.tie_load_tail_shape", "NV.C20.tie_clone_shape", "NV.C20.tie_init_object_shape", "NV.C20.tie_load_virtual_shape", "NV.C20.tie_bind_shape",
+        "NV.C20.tie_load_tail_shape", "NV.C20.tie_clone_shape", "NV.C20.tie_init_object_shape",
         "NV.C20.tie_make_new_name_shape", "NV.C20.tie_destruct_vital_shape", "NV.C20.tie_error_texts",
+        # round 6: decision trees (symbolic execution of the C functions) = the model
+        "NV.C20.tie_giveuid_tree", "NV.C20.tie_giveuid_tree_premaster", "NV.C20.tie_giveuid_semantics", "NV.C20.tie_seteuid_tree",
+        "NV.C20.tie_export_tree", "NV.C20.tie_reload_tree", "NV.C20.tie_set_master_tree", "NV.C20.tie_bind_tree",
+        "NV.C20.tie_load_virtual_tree",
     ]
     consts = [("autoTrustBackbone", "NV_AUTO_TRUST_BACKBONE"), ("autoSeteuid", "NV_AUTO_SETEUID"),
               ("tNumber", "T_NUMBER"), ("tString", "T_STRING"), ("msMudlibLimbo", "MS_MUDLIB_LIMBO"),
@@ -178,9 +179,13 @@ class C20(Prop):
     # own (`call,<path>` = call_other on a file name, `calla` = inside an array of targets, `tellroom` = tell_room on a file
     # name); the model knows ONE load: they are compared with (and judged as) its `load` op
     ALIAS = re.compile(r"(?<![A-Za-z0-9_])(?:call|calla|tellroom),(?=/)")
+    # `do <oid> later,<op>` / `hb,<op>`: the same op, started by the driver from a call_out / the object's heart_beat
+    # (current_object = that object): compared with and judged as the plain op
+    DRIVEN = re.compile(r"^(do \S+ )(?:later|hb),")
 
     def run_model(self, ctx, cases):
-        mapped = [E.Case(c.id, [self.ALIAS.sub("load,", l) if l.startswith(("do ", "script ")) else l for l in c.lines], c.meta)
+        mapped = [E.Case(c.id, [self.ALIAS.sub("load,", self.DRIVEN.sub(r"\1", l)) if l.startswith(("do ", "script ")) else l
+                                for l in c.lines], c.meta)
                   for c in cases]
         return E.nvdrive(self.id, "model", E.cases_text(mapped))
 
@@ -189,7 +194,7 @@ class C20(Prop):
         for l in lines:
             l = l.rstrip()
             if l.startswith("do "):
-                l = self.ALIAS.sub("load,", l)
+                l = self.ALIAS.sub("load,", self.DRIVEN.sub(r"\1", l))
             if not l or l.startswith("sanitizer "):
                 continue
             if l.startswith("crash"):
@@ -339,6 +344,31 @@ class C20(Prop):
                              "do m load,/c20/odd/a", "do u1a seteuid,s:Root", "do u1a load,/c20/u1/b", "do u1a load,/c20/root/a",
                              "do u2a seteuid,s:backbone", "do u2a load,/c20/bb/a", "do u2a load,/c20/u2/b", "do odda seteuid,s:u1",
                              "pol cf u1 s:u1", "do odda load,/c20/u1/c", "do odda export,u1b", "do m seteuid,s:root", "do m load,/c20/root/b"])
+        # ---- round 6: loaders whose euid differs from their uid (master-approved foreign seteuid) - every creation rule, for load,
+        # clone and virtual objects (the class of the independently written change C20-5: backbone objects get the loader's EUID)
+        mk("foreign-euid-loader", ["do m load,/c20/root/a", "do roota seteuid,s:zed", "do roota load,/c20/bb/a", "do roota clone,c1,/c20/bb/b",
+                                   "do roota load,/c20/root/b", "do roota clone,c2,/c20/root/b", "do roota load,/c20/u1/a",
+                                   "pol cf u2 s:zed", "do roota load,/c20/u2/a", "do roota clone,c3,/c20/u2/b",
+                                   "pol co odd t:/c20/bb/c", "do roota load,/c20/odd/v1", "do roota clone,c4,/c20/odd/v1",
+                                   "do c1 seteuid,s:zed", "do c1 seteuid,s:Root", "do bba clone,c5,/c20/bb/b", "do bba seteuid,s:x9",
+                                   "do bba clone,c6,/c20/bb/b", "do c6 load,/c20/root/c"])
+        # export_uid chains: a uid travels A -> B -> C only through euids that the master approved on the way
+        mk("export-chain", ["do m load,/c20/u1/a", "do m load,/c20/u2/a", "do m load,/c20/odd/a", "do u1a seteuid,s:zed",
+                            "do u1a export,u2a", "do u2a export,odda", "do u2a seteuid,s:zed", "do u2a export,odda",
+                            "do odda seteuid,s:x9", "do u2a export,odda", "do odda export,u1a", "do odda seteuid,i:0",
+                            "do u1a export,odda", "pol vs u2a * i:0", "do u2a seteuid,i:0", "do u2a seteuid,s:zed", "do odda export,u2a",
+                            "do odda seteuid,s:zed", "do odda export,u2a", "do u2a export,u2a"])
+        # geteuid(function) / bind() with foreign owners: the pointer's owner (new owner) has an euid that is not its uid
+        mk("funptr-foreign-owner", ["do m load,/c20/u1/a", "do m load,/c20/u2/a", "do u1a seteuid,s:zed", "do u2a via,u1a,load,/c20/bb/a",
+                                    "do u2a bind,u1a,clone,c1,/c20/bb/b", "do u2a via,u1a,seteuid,s:Root", "do u2a via,u1a,export,u2a",
+                                    "do u2a bind,u1a,load,/c20/root/a", "do u2a via,u1a,seteuid,i:0", "do u2a bind,u1a,load,/c20/root/b",
+                                    "do u2a via,u1a,via,u2a,seteuid,s:U1", "do u1a bind,u2a,clone,c2,/c20/u2/b"])
+        # driver-started contexts: the op runs from a call_out / from the actor's heart_beat (no caller, current_object = actor)
+        mk("driver-started", ["do m load,/c20/u1/a", "do u1a later,load,/c20/u1/b", "do u1a hb,clone,c1,/c20/u1/b", "do u1a later,seteuid,s:u1",
+                              "do u1a hb,load,/c20/u1/b", "do u1a later,clone,c1,/c20/bb/a", "do m hb,load,/c20/bb/b", "do m later,dest,m",
+                              "do zz later,load,/c20/u1/c", "do u1a hb,export,u1b", "do u1b later,via,u1a,load,/c20/u2/a",
+                              "do u1b hb,bind,u1a,load,/c20/u2/b", "script /c20/u2/c load,/c20/odd/a", "do u1a later,load,/c20/u2/c",
+                              "do u1a hb,reload,u1b", "do u1b hb,call,/c20/root/a"])
         # ---- round 5: the other efuns that load an object by name for their caller
         mk("load-by-other-efuns", ["do m load,/c20/u1/a", "do u1a call,/c20/u1/b", "do u1a calla,/c20/u1/b", "do u1a tellroom,/c20/u1/b",
                                    "do u1a seteuid,s:u1", "do u1a call,/c20/u1/b", "do u1a calla,/c20/u1/c", "do u1a tellroom,/c20/u2/a",
@@ -585,7 +615,14 @@ class C20(Prop):
                 if rng.chance(2, 3):
                     lines.append("do %s load,%s" % (actor(), p))
                     created(a, p)
-        return E.Case(cid, lines, {"origin": "generated"})
+        # one top-level op in eight is started by the driver: from a call_out / from the actor's heart_beat
+        out = []
+        for l in lines:
+            if l.startswith("do ") and rng.chance(1, 8):
+                t = l.split(" ", 2)
+                l = "do %s %s,%s" % (t[1], rng.choice(["later", "hb"]), t[2])
+            out.append(l)
+        return E.Case(cid, out, {"origin": "generated"})
 
     def generate(self, rng, n, tier):
         return [self.gen_case(rng, "g%d" % i) for i in range(n)]
@@ -598,8 +635,13 @@ class C20(Prop):
              "crash": 0, "cfg_nobb": 0, "cfg_noroot": 0, "cfg_novb": 0, "cfg_simul": 0, "simul_actor_ops": 0, "simul_dest_error": 0, "cf_callback_drops": 0,
              "bind_ops": 0, "bind_asked": 0, "bind_denied": 0}
         alias_ops = 0
+        driven_ops = 0
+        foreign = {"load": 0, "clone": 0, "virtual": 0, "backbone": 0}
         for c in cases:
             alias_ops += sum(len(self.ALIAS.findall(l)) for l in c.lines)
+            driven_ops += sum(1 for l in c.lines if self.DRIVEN.match(l))
+            snapq = {}
+            astack, actor_cur = [], None
             for f in self.cfg_key(c):
                 h["cfg_" + f] += 1
             cur = None
@@ -622,6 +664,8 @@ class C20(Prop):
                         h["nested_ops"] += 1
                     h["max_nesting"] = max(h["max_nesting"], len(stack) - 1)
                     cur = t[2] if len(t) > 2 else ""
+                    astack.append(actor_cur)
+                    actor_cur = t[1]
                     pend_cf = None
                 elif t[0] == "vb":
                     h["bind_asked"] += 1
@@ -631,7 +675,19 @@ class C20(Prop):
                     pend_cf = t[2] if len(t) > 2 else None
                     if pend_cf == "err":
                         h["cf_error"] += 1
+                elif t[0] == "q":
+                    snapq = dict(e.rstrip("*").split("=", 1) for e in t[1:] if "=" in e)
                 elif t[0] == "new":
+                    if pend_cf is not None and stack and cur:
+                        # the creating actor = the `do` line of the innermost running op
+                        ue = snapq.get(actor_cur or "", "")
+                        if "/" in ue:
+                            u, e2 = ue.split("/", 1)
+                            if e2 != "0" and e2 != u:
+                                kind = "virtual" if cur.startswith("clone,v") else ("clone" if cur.startswith("clone") else "load")
+                                foreign[kind] += 1
+                                if pend_cf == "s:Backbone":
+                                    foreign["backbone"] += 1
                     if cur and cur.startswith("reload"):
                         h["reloads"] += 1
                     elif pend_cf is None:
@@ -676,9 +732,13 @@ class C20(Prop):
                     if len(stack) > 1 and ("no_effective_user" in r or "without_effective_UID" in r):
                         h["nested_noeuid_refused"] += 1
                     cur = stack.pop() if stack else None
+                    actor_cur = astack.pop() if astack else None
                 elif t[0] == "crash":
                     h["crash"] += 1
         h["loads_by_other_efuns_in_cases"] = alias_ops
+        h["driver_started_ops_in_cases"] = driven_ops
+        for k2, v2 in foreign.items():
+            h["creations_by_foreign_euid_loader_" + k2] = v2
         return h
 
 
